@@ -1,4 +1,5 @@
 import Oracle.Common
+import MageModel.Parse.Fields
 import Oracle.Conv
 import MageModel.Gen.Dispatch
 import MageModel.Gen.List
@@ -83,7 +84,7 @@ def proj (j : Json) : R Proj := do
   pure ⟨← pkg (← fld pj "main"), world, fields, ← strMap j "docText", ← strMap j "syn"⟩
 
 def cfgOf (p : Proj) : MageModel.Parse.Cfg :=
-  { fields := fun c => (p.fields.lookup c).getD [],
+  { fields := MageModel.Parse.commentFields,   -- transcribed (Parse/Fields.lean); the recorded answers are not consulted
     docText := fun d => (p.docText.lookup d).getD "",
     docSynopsis := fun t => (p.syn.lookup t).getD "" }
 
